@@ -475,7 +475,7 @@ func gen(t *rapid.T) Case {
 		case "basic":
 			secDefs[name] = M{"type": "basic"}
 		case "apiKey":
-			secDefs[name] = M{"type": "apiKey", "name": "X-Key", "in": rapid.SampledFrom([]string{"header", "query"}).Draw(t, "akin")}
+			secDefs[name] = M{"type": "apiKey", "name": rapid.SampledFrom([]string{"X-Key", "Authorization", "api_key"}).Draw(t, "akname"), "in": rapid.SampledFrom([]string{"header", "query"}).Draw(t, "akin")}
 		default:
 			g.feats["oauth2"] = true
 			flow := rapid.SampledFrom([]string{"implicit", "password", "application", "accessCode"}).Draw(t, "flow")
